@@ -172,6 +172,22 @@ def run(tier, seed, broken_proof=False):
             jid = "%s@%s" % (c["id"], ops.cfg_name(cfg))
             jobs.append((dict(c, id=jid), cfg, calls))
             expect[jid] = (c, cfg, calls)
+    # ... and a query whose antecedent entails its consequent (answered True before any operator runs) asked after another query
+    # with the same antecedent, the same consequent, or an unsatisfiable antecedent: whatever is remembered per antecedent or
+    # consequent of an earlier query must not decide a later one
+    for bi, (sb, sn, a0, b0) in enumerate((([(1, Not(V(0)), T)], 2, V(0), V(1)),
+                                          (fb, 6, V(1), V(2)),
+                                          ([(1, V(1), V(0)), (2, Not(V(1)), And(V(0), V(2)))], 3, And(V(0), V(2)), V(1)))):
+        sq1, sq2, sq3, sq4 = (b0, a0), (Or(a0, b0), a0), (a0, a0), (b0, And(a0, Not(a0)))
+        sq5 = (Or(a0, b0), Not(a0))
+        for ti, cfg in enumerate([("system-z", ""), ("system-w", "rc2"), ("lex_inf", "rc2"), ("c-inference", "rc2"), ("system-w", "z3"), ("lex_inf", "z3"), ("p-entailment", "")]):
+            for oi, calls in enumerate(([([(3, sq1[0], sq1[1]), (5, sq2[0], sq2[1]), (8, sq3[0], sq3[1]), (2, sq5[0], sq5[1])], False)],
+                                        [([(4, sq1[0], sq1[1])], False), ([(9, sq2[0], sq2[1])], False), ([(1, sq4[0], sq4[1]), (6, sq3[0], sq3[1])], False)],
+                                        [([(6, sq4[0], sq4[1]), (1, sq5[0], sq5[1]), (7, sq1[0], sq1[1])], False), ([(7, sq3[0], sq3[1]), (0, sq2[0], sq2[1])], False)])):
+                c = make_case("sa%d_%d_%d" % (bi, ti, oi), sn, sb, [(1, sq1[0], sq1[1])], False)
+                jid = "%s@%s" % (c["id"], ops.cfg_name(cfg))
+                jobs.append((dict(c, id=jid), cfg, calls))
+                expect[jid] = (c, cfg, calls)
     # model answers: every distinct query asked alone on a fresh model
     mcases = []
     for jid, (c, cfg, calls) in expect.items():
